@@ -102,6 +102,9 @@ EVENTS = {
     # unit: the two are different units)
     'n1/x0b': (['unit', 'NB', 'n1px0', ['derive', ['n1', 'x0']]],
                ['NB', 'n1'], 'valid'),
+    # a subclass of Money (a quantity type of its own) and a currency in it
+    'Tok': (['type', 'Tok', None, None, 'Money'], ['Money'], 'valid'),
+    'TokCHF': (['curin', 'Tok', 'CHF'], ['Tok'], 'valid'),
     # an ISO code declared directly, and its registration afterwards
     'JPYhand': (['newcur', 'JPY', 2, None], [], 'valid'),
     '!JPYreg': (['cur', 'JPY'], ['JPY'], 'invalid:duplicate symbol'),
@@ -449,6 +452,8 @@ def candidate_symbols():
             out.add(ev[2])
         elif ev[0] in ('cur', 'newcur'):
             out.add(ev[1])
+        elif ev[0] == 'curin':
+            out.add(ev[2])
     return sorted(out | {'x0²', 'x0/y0', 'x1/y0', 'x0·y0', '', '5',
                          '\u2126\u00b2'})
 
